@@ -37,21 +37,21 @@ CHECKS = {
    text="2-3 writer threads increment a counter read inside their transaction while 1-2 readers run; the first commits grow a fresh 4-page file (exclusive map lock). All schedules with <= 1 preemption, then <= 2 (capped; thorough 3), then random / PCT schedules. Violations: two write transactions open at once, a lost update, a state where every live thread is blocked, a reader blocked while only an idle uncommitted writer exists (also when the blocking is invisible to the controller: watchdog), or an execution exceeding the step bound.",
    note="Liveness as bounded progress under explored schedules; fairness not modelled.", ref="4/C09"),
  "C10": dict(level="exploration", engine="E1+E2", technique="property testing over seeded long stationary workloads with a metamorphic bound: high-water mark bounded by measured live + dirty pages (independent parser after every commit)",
-   text="Seeded long workloads (fixed-size overwrite, variable-size overwrite/delete, bucket create/delete cycles; with reopen, rollbacks, pinned reader) are run for hundreds to thousands of transactions; after every commit the independent parser measures live pages, dirty pages and the high-water mark; the high-water mark must stay within a bound relative to measured live and dirty pages for every prefix of the run, a pinned reader must keep seeing its snapshot, and growth must stop once it closes.",
+   text="Seeded long workloads (fixed-size overwrite, variable-size overwrite/delete, bucket create/delete cycles; with reopen, rollbacks, a pinned reader, rolling young readers, and runs that begin with more than 1024 pages in the free set after a one-off bulk delete) are run for hundreds to thousands of transactions; after every commit the independent parser measures live pages, dirty pages and the high-water mark; the high-water mark must stay within a bound relative to measured live and dirty pages for every prefix of the run, a pinned reader must keep seeing its snapshot, and growth must stop once it closes.",
    note="Bounds calibrated on the unchanged tree (plateau ~1.1-1.6x live; a free list that never releases exceeds the bound within ~100 transactions).", ref="4/C10"),
  "C11": dict(level="fault_enumeration", engine="E1+E2+E3", technique="fault injection enumerated over every I/O call of a target commit (LD_PRELOAD shim: EIO, ENOSPC, short write then error; RLIMIT_FSIZE for file extension), oracle = Err not panic, pre-or-post state on the same handle, independent parser, further commits and reopen match the model",
-   text="A dry run counts the lseek/write/fsync calls a target commit issues; one worker process per (call, errno, short-write variant) then runs the same history with that call failing. The commit must return Err; the same handle must show exactly the pre- or post-transaction state, pass the independent parser and DB::check, accept 3-6 further generated transactions that match the model continued from the observed state, and reopen to the same. Single faults are exhaustive per target commit.",
+   text="A dry run counts the lseek/write/fsync calls a target commit issues; one worker process per (call, errno, short-write variant) then runs the same history with that call failing. The commit must return Err; the same handle must show exactly the pre- or post-transaction state, pass the independent parser and DB::check, accept 3-6 further generated transactions that match the model continued from the observed state, and reopen to the same. Single faults are exhaustive per target commit; pairs are sampled (a second fault, re-armed, in one of the next three commits on the same handle).",
    note="Faults at the libc boundary; a fault makes exactly one call fail.", ref="4/C11"),
  "C12": dict(level="fault_enumeration", engine="E1+E2", technique="fault enumeration: every single-byte damage at every offset of either header page (several byte values; all 255 on defined bytes in the thorough tier), zeroing, multi-byte overwrites and torn tails, after every commit count 0..N; oracle = dump equals the state of the intact header",
    text="For files after 0..N commits of generated histories every enumerated damage is applied to the newest or the older header page of a copy; opening must succeed and the full dump must equal the state recorded by the intact header whenever a byte the format defines changed (either state otherwise). Single faults are enumerated exhaustively for the offsets and values listed in the evidence.",
    note="Other header and all data pages intact; single-process open.", ref="4/C12"),
  "C13": dict(level="exploration", engine="E3+E5", technique="generated multi-process orchestrations (start offsets, hold times, forced orderings through LD_PRELOAD gates at libc boundaries); oracle = disjoint open intervals from monotonic timestamps, successor sees predecessor's marker, every process exits 0",
-   text="2-3 worker processes open the same path (existing or not yet created), commit a marker and close, under generated start offsets / hold times and with processes parked by the shim at open64, after open64, the creator's writes, fsync, mmap64 or close; all gate pairs x release orders for two processes, sampled for three. Open intervals must be pairwise disjoint, a later opener must see every earlier marker, and no open may fail or panic instead of waiting.",
+   text="2-3 worker processes open the same path (existing or not yet created), commit a marker and close, under generated start offsets / hold times and with processes parked by the shim at open64, after open64, the creator's writes, fsync, mmap64 or close; all gate pairs x release orders for two processes; for three, structured chains (A parked while holding, B queued, C started only after A or B was released and has closed) plus seeded samples; every worker also makes two churn commits and the orchestrator verifies the final file in full. Open intervals must be pairwise disjoint, a later opener must see every earlier marker, and no open may fail or panic instead of waiting.",
    note="flock is a raw syscall: its effect is observed, not the call; timing decides which interleaving is produced, not the verdict.", ref="4/C13"),
  "C14": dict(level="exploration", engine="E6", technique="compile-fail program generation: hand-written (type x escape route) corpus plus programs synthesised from rustdoc JSON of the public API, compiled with rustc against the freshly built rlib; programs that compile are linked and run in a remap / page-reuse probe",
    text="Every escape program must be rejected with a borrow / lifetime (or, for thread routes, Send / Sync) error; a program that compiles is run: it copies the escaped bytes, ends the transaction, churns the database so that the file is remapped and every freed page reused, and re-reads the bytes, which must neither fault nor change, and a new write transaction must still be able to start; thread routes that compile are violations; positive controls must compile and run. The surface-driven part enumerates every public method and trait impl on every type reachable from a transaction.",
    note="unsafe client code out of scope; thread routes apply to handles, not to plain byte slices.", ref="4/C14"),
- "C15": dict(level="exploration", engine="E1+E2", technique="differential testing against golden files written by the pinned tree (4 page sizes x current/legacy header) with generated continuation histories; refusal + unchanged bytes for every mismatching page size",
+ "C15": dict(level="exploration", engine="E1+E2", technique="differential testing against golden files written by the pinned tree (4 page sizes x {pre-sized, grown by a commit of the pinned build} x current/legacy header) with generated continuation histories; refusal + unchanged bytes for every mismatching page size",
    text="Golden files produced by the pinned code are opened by the current code: dump must equal the recorded dump, the independent parser (pinned layout) must accept them, generated further transactions must commit and match the model, and opening with any other page size must be refused without touching the file.",
    note="Legacy-header files are synthesised from the pinned OldMeta layout.", ref="4/C15"),
  "C16": dict(level="exploration", engine="E1+E2", technique="metamorphic property testing: the same generated history replayed under the product of page size x initial pages x strict x populate must match one reference model; growth runs across >= 3 extension steps; odd builder values must work or be refused cleanly",
